@@ -10,12 +10,13 @@ ap.add_argument('--repo', default='/repo')
 ap.add_argument('--no-twins', action='store_true')
 ap.add_argument('--gen-only', action='store_true')
 ap.add_argument('-v', action='store_true')
+ap.add_argument('--tag', default='_dev')
 a = ap.parse_args()
 if a.gen_only:
     u = vrun.generate(a.unit, a.repo)
     sys.stdout.write(u.render(with_twins=not a.no_twins)[0])
     sys.exit(0)
-r = vrun.run_unit(a.unit, a.repo, twins=not a.no_twins)
+r = vrun.run_unit(a.unit, a.repo, twins=not a.no_twins, tag=a.tag)
 print('unit', r.name, 'status', r.status, r.reason)
 print('verified', r.n_verified, 'errors', r.n_errors, 'wall %.1fs' % r.wall_s, 'smt_ms', r.smt_ms)
 print('twins ok', len(r.twins_ok), 'bad', r.twins_bad)
